@@ -647,6 +647,258 @@ Section Mirror.
       rewrite whole_body_slot by (rewrite filter_all; exact Hio). rewrite filter_all.
       unfold ok_name. rewrite (nth_error_nth' ord "" Hio). cbn [is_var]. apply String.eqb_refl.
   Qed.
+
+  (* ---------- missing_values ---------- *)
+  Section Missing.
+    Variable req : list (string * nat).
+    Variable ru' : bool.
+    Variable tbl : list string.
+    Hypothesis Hru : ru = false.
+    Hypothesis R1 : NoDup (keys req).
+    Hypothesis R2 : forall x i, lookup x req = Some i -> i < length req.
+    Hypothesis R3 : forall x y i, lookup x req = Some i -> lookup y req = Some i -> x = y.
+    Hypothesis R4 : forall x, In x (keys req) -> In x snames \/ In x pnames \/ In x anames.
+    Hypothesis T1 : length tbl = length req.
+    Hypothesis T2 : forall i x, nth_error tbl i = Some x -> lookup x req = Some i.
+
+    Notation NN := (length req).
+    Let pkm := fun x => condition o ru' x || mem x (keys req).
+    Notation Dm := (defs_after (prologue o ss keep_all pkm) d0).
+
+    Definition rq_store (x : string) : list stmt :=
+      match lookup x req with Some i => [SStore i (EVar x)] | None => [] end.
+    Definition mv_full (l : list string) : list stmt :=
+      flat_map (fun x => SLet x (a_expr_of o x) :: rq_store x) l.
+
+    Lemma lookup_keys x i : lookup x req = Some i -> In x (keys req).
+    Proof.
+      intros H. destruct (in_dec string_dec x (keys req)) as [Hi|Hn]; [exact Hi|].
+      apply lookup_None_keys in Hn. congruence.
+    Qed.
+
+    (* the loop emits a prefix of the full body *)
+    Lemma mv_loop_prefix : forall l n, exists rest, mv_full l = mv_loop o req l n NN ++ rest.
+    Proof.
+      induction l as [|x l IH]; intros n; [exists []; reflexivity|].
+      cbn [mv_loop mv_full flat_map]. unfold rq_store at 1.
+      set (here := SLet x (a_expr_of o x) :: match lookup x req with Some i => [SStore i (EVar x)] | None => [] end).
+      set (n' := match lookup x req with Some _ => S n | None => n end).
+      fold (mv_full l). destruct (Nat.leb NN n').
+      - exists (mv_full l). reflexivity.
+      - destruct (IH n') as [rest E]. exists rest. rewrite E, app_assoc. reflexivity.
+    Qed.
+
+    Lemma rq_store_ok D x : In x D -> vb NN D (rq_store x) = true.
+    Proof.
+      intros Hx. unfold rq_store. destruct (lookup x req) as [i|] eqn:E; [|reflexivity].
+      cbn [valid_body ok_stmt vars forallb]. rewrite (proj2 (mem_In x D) Hx). cbn [andb binds app].
+      rewrite (proj2 (Nat.ltb_lt i NN) (R2 x i E)). reflexivity.
+    Qed.
+
+    Lemma rq_store_defs D x : defs_after (rq_store x) D = D.
+    Proof. unfold rq_store. destruct (lookup x req); reflexivity. Qed.
+
+    Lemma mv_full_valid : forall l D,
+      NoDup l -> (forall n, In n l -> In n anames /\ ~ In n D) ->
+      (forall pre n post, l = pre ++ n :: post ->
+         forall y, In y (vars (a_expr_of o n)) -> In y D \/ In y pre) ->
+      vb NN D (mv_full l) = true.
+    Proof.
+      induction l as [|n l IH]; intros D Hnd Hin Hdeps; [reflexivity|].
+      inversion Hnd as [|? ? Hn Hnd']; subst.
+      destruct (Hin n (or_introl eq_refl)) as [Hna HnD].
+      destruct (find_assign_Some o n Hna) as (a & Hfa & _ & _).
+      assert (Hlet : oks NN D (SLet n (a_expr_of o n)) = true).
+      { unfold ok_stmt. rewrite (proj2 (mem_false_In n D) HnD), Hfa, (a_expr_of_eq n a Hfa), expr_eqb_refl.
+        simpl. apply forallb_forall. intros y Hy. apply mem_In.
+        rewrite <- (a_expr_of_eq n a Hfa) in Hy.
+        destruct (Hdeps [] n l eq_refl y Hy) as [H|[]]. exact H. }
+      cbn [mv_full flat_map]. fold (mv_full l). cbn [app valid_body binds]. rewrite Hlet. cbn [andb].
+      rewrite valid_body_app, (rq_store_ok (n :: D) n (or_introl eq_refl)), rq_store_defs. cbn [andb].
+      apply IH; [exact Hnd'| |].
+      - intros m Hm. split; [exact (proj1 (Hin m (or_intror Hm)))|].
+        intros [E|Hc]; [subst m; contradiction|]. exact (proj2 (Hin m (or_intror Hm)) Hc).
+      - intros pre m post E y Hy.
+        destruct (Hdeps (n :: pre) m post (f_equal (cons n) E) y Hy) as [H|[H|H]].
+        + left. right. exact H.
+        + left. left. exact H.
+        + right. exact H.
+    Qed.
+
+    (* ---------- how far the loop runs ---------- *)
+    Definition isreq (x : string) : bool := match lookup x req with Some _ => true | None => false end.
+    Definition creq (l : list string) : nat := length (filter isreq l).
+
+    Lemma isreq_keys x : isreq x = true <-> In x (keys req).
+    Proof.
+      unfold isreq. destruct (lookup x req) as [i|] eqn:E.
+      - split; [intros _; exact (lookup_keys x i E)|reflexivity].
+      - split; [discriminate|]. intros H. apply lookup_None_keys in E. contradiction.
+    Qed.
+
+    Lemma mv_loop_shape : forall l n, exists P rest,
+      l = P ++ rest /\ mv_loop o req l n NN = mv_full P /\ (rest = [] \/ NN <= n + creq P).
+    Proof.
+      induction l as [|x l IH]; intros n.
+      - exists [], []. split; [reflexivity|]. split; [reflexivity|left; reflexivity].
+      - cbn [mv_loop].
+        set (here := SLet x (a_expr_of o x) :: match lookup x req with Some i => [SStore i (EVar x)] | None => [] end).
+        set (n' := match lookup x req with Some _ => S n | None => n end).
+        assert (Hn' : n' = n + creq [x]).
+        { unfold n', creq, isreq. simpl. destruct (lookup x req); simpl; lia. }
+        assert (Hhere : here = mv_full [x]).
+        { unfold mv_full, here, rq_store. simpl. rewrite app_nil_r. reflexivity. }
+        destruct (Nat.leb_spec NN n') as [Hle|Hgt].
+        + exists [x], l. split; [reflexivity|]. split; [exact Hhere|right; lia].
+        + destruct (IH n') as (P & rest & E & EL & Hc). exists (x :: P), rest.
+          split; [simpl; rewrite E; reflexivity|]. split.
+          * rewrite EL, Hhere. unfold mv_full. simpl. rewrite app_nil_r. reflexivity.
+          * destruct Hc as [Hc|Hc]; [left; exact Hc|right].
+            unfold creq in *. simpl. simpl in Hn'. destruct (isreq x); simpl in *; lia.
+    Qed.
+
+    Lemma creq_app l1 l2 : creq (l1 ++ l2) = creq l1 + creq l2.
+    Proof. unfold creq. rewrite filter_app, app_length. reflexivity. Qed.
+
+    (* every requested name occurs in a duplicate-free list of all names exactly once *)
+    Lemma creq_total L : NoDup L -> (forall x, In x (keys req) -> In x L) -> creq L = NN.
+    Proof.
+      intros Hnd Hall. unfold creq. rewrite <- (map_length fst req). fold (keys req).
+      apply Permutation_length. apply NoDup_Permutation; [apply NoDup_filter; exact Hnd|exact R1|].
+      intros x. rewrite filter_In, isreq_keys. split; [tauto|]. intros H. split; [apply Hall; exact H|exact H].
+    Qed.
+
+    (* ---------- which statement writes slot i ---------- *)
+    Lemma rq_store_at i x y : lookup x req = Some i ->
+      stores_at i (rq_store y) = if String.eqb y x then [EVar x] else [].
+    Proof.
+      intros Hx. unfold rq_store, stores_at. destruct (lookup y req) as [j|] eqn:Ey; simpl.
+      - destruct (Nat.eqb_spec i j) as [->|Hne].
+        + rewrite (R3 y x j Ey Hx), String.eqb_refl. reflexivity.
+        + destruct (String.eqb_spec y x) as [->|_]; [congruence|reflexivity].
+      - destruct (String.eqb_spec y x) as [->|_]; [congruence|reflexivity].
+    Qed.
+
+    Lemma stores_at_app i b1 b2 : stores_at i (b1 ++ b2) = stores_at i b1 ++ stores_at i b2.
+    Proof. unfold stores_at. apply flat_map_app. Qed.
+
+    Lemma stores_flat (f : string -> list stmt) i x L :
+      lookup x req = Some i -> NoDup L ->
+      (forall y, stores_at i (f y) = stores_at i (rq_store y)) ->
+      stores_at i (flat_map f L) = if mem x L then [EVar x] else [].
+    Proof.
+      intros Hx Hnd Hf. induction L as [|y L IH]; [reflexivity|].
+      inversion Hnd as [|? ? Hy Hnd']; subst. cbn [flat_map]. rewrite stores_at_app, Hf, (rq_store_at i x y Hx), (IH Hnd'), mem_cons.
+      destruct (String.eqb_spec y x) as [->|Hne].
+      - rewrite String.eqb_refl. rewrite (proj2 (mem_false_In x L) Hy). reflexivity.
+      - destruct (String.eqb_spec x y) as [E|_]; [congruence|]. reflexivity.
+    Qed.
+
+    Lemma decl_names_nodup : NoDup (state_names o ++ param_names o).
+    Proof.
+      destruct nd_parts as (Hs & Hp & _ & Hsp & _).
+      apply NoDup_app_intro; [apply sort_names_NoDup; exact Hs|apply sort_names_NoDup; exact Hp|].
+      intros x Hx Hy. unfold state_names in Hx. unfold param_names in Hy.
+      rewrite sort_names_In in Hx, Hy. exact (Hsp x Hx Hy).
+    Qed.
+
+    Lemma pkm_ok n a y : find_assign o n = Some a -> In y (vars (a_expr a)) -> pkm y = true.
+    Proof. intros H1 H2. unfold pkm. rewrite (keep_used o ru' n a y H1 H2). reflexivity. Qed.
+
+    Lemma keep_all_ok n a y : find_assign o n = Some a -> In y (vars (a_expr a)) -> keep_all y = true.
+    Proof. reflexivity. Qed.
+
+    Theorem gen_missing_valid order f :
+      gen_missing_values o ru' req order = Some f -> valid_named o ss inp wd tbl f = true.
+    Proof.
+      pose proof Hord as H0. rewrite Hru in H0.
+      unfold gen_missing_values. rewrite Hss, H0. intros H. injection H as <-.
+      unfold valid_named, valid_fun. cbn [f_nret f_body]. fold pkm.
+      destruct ord_sound as (Ond & Oin & Oall & _).
+      destruct nd_parts as (Hnds & Hndp & _ & Hsp & Hsa & Hpa).
+      set (pre := mv_decl_stores o req).
+      assert (Hpre_len : length pre = creq (state_names o ++ param_names o)).
+      { unfold pre, mv_decl_stores, creq, isreq. induction (state_names o ++ param_names o) as [|x l IH]; [reflexivity|].
+        simpl. rewrite app_length, IH. destruct (lookup x req); reflexivity. }
+      assert (Hpre_valid : vb NN Dm pre = true /\ defs_after pre Dm = Dm).
+      { unfold pre, mv_decl_stores.
+        change (fun x : string => match lookup x req with Some i => [SStore i (EVar x)] | None => [] end) with rq_store.
+        assert (Gd : forall l, defs_after (flat_map rq_store l) Dm = Dm).
+        { induction l as [|x l IH]; [reflexivity|]. cbn [flat_map]. unfold defs_after. rewrite fold_left_app.
+          fold (defs_after (rq_store x) Dm). rewrite rq_store_defs. exact IH. }
+        split; [|apply Gd].
+        assert (G : forall l, (forall x, In x l -> In x (state_names o ++ param_names o)) -> vb NN Dm (flat_map rq_store l) = true).
+        { induction l as [|x l IH]; intros Hl; [reflexivity|].
+          cbn [flat_map]. rewrite valid_body_app, rq_store_defs, (IH (fun y Hy => Hl y (or_intror Hy))), andb_true_r.
+          specialize (Hl x (or_introl eq_refl)). destruct (lookup x req) as [i|] eqn:E.
+          - apply rq_store_ok. apply prologue_defs. apply in_app_or in Hl. destruct Hl as [Hl|Hl].
+            + right. left. split; [reflexivity|]. apply W3. unfold state_names in Hl. rewrite sort_names_In in Hl. exact Hl.
+            + right. right. left. split; [|exact Hl]. unfold pkm. rewrite (proj2 (mem_In x (keys req)) (lookup_keys x i E)). apply orb_true_r.
+          - unfold rq_store. rewrite E. reflexivity. }
+        apply G. auto. }
+      destruct Hpre_valid as [Hpv Hpd].
+      destruct (mv_loop_shape ord (length pre)) as (P & rest & EP & EL & Hstop).
+      repeat (apply andb_true_iff; split).
+      - apply Nat.eqb_eq. symmetry. exact T1.
+      - unfold mv_body. fold pre. rewrite valid_body_app, (prologue_valid keep_all pkm NN). cbn [andb].
+        rewrite valid_body_app, Hpv, Hpd. cbn [andb].
+        destruct (mv_loop_prefix ord (length pre)) as [rest' Epre].
+        assert (Hfull : vb NN Dm (mv_full ord) = true).
+        { apply mv_full_valid; [exact Ond|apply (ord_fresh keep_all pkm)|apply (ord_deps keep_all pkm keep_all_ok pkm_ok)]. }
+        rewrite Epre, valid_body_app in Hfull. apply andb_true_iff in Hfull. exact (proj1 Hfull).
+      - unfold slots_ok. apply forallb_forall. intros i Hi. apply in_seq in Hi.
+        assert (Hit : i < length tbl) by (rewrite T1; lia).
+        destruct (nth_error tbl i) as [x|] eqn:Ex; [|apply nth_error_None in Ex; lia].
+        pose proof (T2 i x Ex) as Hx.
+        unfold mv_body. fold pre. rewrite !stores_at_app, prologue_no_store, EL. cbn [app].
+        assert (S1 : stores_at i pre = if mem x (state_names o ++ param_names o) then [EVar x] else []).
+        { unfold pre, mv_decl_stores. apply (stores_flat _ i x _ Hx decl_names_nodup). intros y. reflexivity. }
+        assert (HndP : NoDup P).
+        { rewrite EP in Ond. apply NoDup_app_elim in Ond. exact (proj1 Ond). }
+        assert (S2 : stores_at i (mv_full P) = if mem x P then [EVar x] else []).
+        { unfold mv_full. apply (stores_flat _ i x _ Hx HndP). intros y.
+          change (SLet y (a_expr_of o y) :: rq_store y) with ([SLet y (a_expr_of o y)] ++ rq_store y).
+          rewrite stores_at_app. reflexivity. }
+        rewrite S1, S2. unfold ok_name. rewrite Ex.
+        destruct (R4 x (lookup_keys x i Hx)) as [Hs|[Hp|Ha]].
+        + assert (M1 : mem x (state_names o ++ param_names o) = true).
+          { apply mem_In, in_or_app. left. unfold state_names. rewrite sort_names_In. exact Hs. }
+          assert (M2 : mem x P = false).
+          { apply mem_false_In. intros Hc. apply (Hsa x Hs). apply Oin. rewrite EP. apply in_or_app. left. exact Hc. }
+          rewrite M1, M2. cbn [app is_var]. apply String.eqb_refl.
+        + assert (M1 : mem x (state_names o ++ param_names o) = true).
+          { apply mem_In, in_or_app. right. unfold param_names. rewrite sort_names_In. exact Hp. }
+          assert (M2 : mem x P = false).
+          { apply mem_false_In. intros Hc. apply (Hpa x Hp). apply Oin. rewrite EP. apply in_or_app. left. exact Hc. }
+          rewrite M1, M2. cbn [app is_var]. apply String.eqb_refl.
+        + assert (M1 : mem x (state_names o ++ param_names o) = false).
+          { apply mem_false_In. intros Hc. apply in_app_or in Hc. destruct Hc as [Hc|Hc].
+            - unfold state_names in Hc. rewrite sort_names_In in Hc. exact (Hsa x Hc Ha).
+            - unfold param_names in Hc. rewrite sort_names_In in Hc. exact (Hpa x Hc Ha). }
+          assert (HxO : In x ord) by (apply Oall; [exact Ha|left; exact Hru]).
+          assert (M2 : mem x P = true).
+          { apply mem_In. rewrite EP in HxO. apply in_app_or in HxO. destruct HxO as [HxP|HxR]; [exact HxP|].
+            exfalso. destruct Hstop as [->|Hge]; [destruct HxR|].
+            (* all requested names have been written when the loop stops *)
+            assert (Htot : creq ((state_names o ++ param_names o) ++ ord) = NN).
+            { apply creq_total.
+              - apply NoDup_app_intro; [exact decl_names_nodup|exact Ond|].
+                intros y Hy Hyo. apply in_app_or in Hy. pose proof (Oin y Hyo) as Hya. destruct Hy as [Hy|Hy].
+                + unfold state_names in Hy. rewrite sort_names_In in Hy. exact (Hsa y Hy Hya).
+                + unfold param_names in Hy. rewrite sort_names_In in Hy. exact (Hpa y Hy Hya).
+              - intros y Hy. apply in_or_app. destruct (R4 y Hy) as [H1|[H1|H1]].
+                + left. apply in_or_app. left. unfold state_names. rewrite sort_names_In. exact H1.
+                + left. apply in_or_app. right. unfold param_names. rewrite sort_names_In. exact H1.
+                + right. apply Oall; [exact H1|left; exact Hru]. }
+            rewrite EP in Htot. rewrite (creq_app (state_names o ++ param_names o)), (creq_app P rest), <- Hpre_len in Htot.
+            assert (Hr0 : creq rest = 0) by lia.
+            unfold creq in Hr0. apply length_zero_iff_nil in Hr0.
+            assert (Hin : In x (filter isreq rest)).
+            { apply filter_In. split; [exact HxR|]. apply isreq_keys. exact (lookup_keys x i Hx). }
+            rewrite Hr0 in Hin. destruct Hin. }
+          rewrite M1, M2. cbn [app is_var]. apply String.eqb_refl.
+    Qed.
+  End Missing.
 End Mirror.
 
 (* ---------- the well-formedness facts as one boolean, evaluated per model ---------- *)
@@ -764,6 +1016,34 @@ Proof.
       apply (Hd s Hsn). apply in_or_app. right. exact Hc.
     + rewrite reserved_mem. exact (W2 s Hall).
   - eapply ss_nodup; eassumption.
+Qed.
+
+(* missing_values: the requested names - states, parameters or assignments - in the requested slots *)
+Theorem mirror_missing_correct {T} (N : NumOps T) (o : ode) ru order ss ord req tbl f (inp : inputs T) :
+  sorted_states o = Some ss -> sorted_names o false = Some ord -> wf_gen o ss false = true ->
+  NoDup (keys req) ->
+  (forall x i, lookup x req = Some i -> i < length req) ->
+  (forall x y i, lookup x req = Some i -> lookup y req = Some i -> x = y) ->
+  (forall x, In x (keys req) -> In x (all_names o)) ->
+  length tbl = length req ->
+  (forall i x, nth_error tbl i = Some x -> lookup x req = Some i) ->
+  gen_missing_values o ru req order = Some f ->
+  sizes_ok o ss inp ->
+  valid_named o ss inp false tbl f = true
+  /\ exists out,
+      exec N f false inp = Some out
+      /\ length out = length tbl
+      /\ forall i n, nth_error tbl i = Some n ->
+           exists v, nth_error out i = Some v /\ Sem N o ss inp false n v.
+Proof.
+  intros Hss Hord Hwf R1 R2 R3 R4 T1 T2 Hgen Hsz.
+  destruct (wf_gen_spec o ss false Hwf) as (W1 & W2 & W3 & W4 & W5).
+  assert (R4' : forall x, In x (keys req) -> In x (map d_name (o_states o)) \/ In x (map d_name (o_params o)) \/ In x (map a_name (assigns o))).
+  { intros x Hx. specialize (R4 x Hx). unfold all_names in R4. apply in_app_or in R4. destruct R4 as [H|H]; [auto|].
+    apply in_app_or in H. tauto. }
+  pose proof (gen_missing_valid o false false ss ord inp Hss Hord W1 W2 W3 W4 W5 req ru tbl eq_refl R1 R2 R3 R4' T1 T2 order f Hgen) as Hv.
+  split; [exact Hv|]. apply (named_sound N o ss inp false tbl f Hsz); [|exact Hv].
+  exact (wf_reserved_free o ss false inp Hwf).
 Qed.
 
 Print Assumptions mirror_rhs_correct.
